@@ -953,26 +953,9 @@ func checkDrainLatch(c *Ctx, rule string) {
 		// the close of the drain latch must not be control-dependent on the listener being bound
 		okAlways := false
 		var onceDo ssa.Instruction
-		eachInstr(dr, func(_ *ssa.BasicBlock, _ int, in ssa.Instruction) {
-			if cc := callOf(in); cc != nil {
-				for _, a := range cc.Args {
-					if g := funcValue(a); g != nil {
-						eachInstr(g, func(_ *ssa.BasicBlock, _ int, x ssa.Instruction) {
-							if isBuiltin(x, "close") {
-								if f, _ := chanFieldOf(callOf(x).Args[0]); f == drain {
-									onceDo = in
-								}
-							}
-						})
-					}
-				}
-			}
-			if isBuiltin(in, "close") {
-				if f, _ := chanFieldOf(callOf(in).Args[0]); f == drain {
-					onceDo = in
-				}
-			}
-		})
+		if sites := p.closeSitesIn(dr, drain); len(sites) > 0 {
+			onceDo = sites[0]
+		}
 		if onceDo != nil {
 			okAlways = escapesWithout(entryPos(dr), func(x ssa.Instruction) bool { return x == onceDo }) == nil
 		}
